@@ -16,7 +16,7 @@ EXTENDS Common
 
 SubsetDN(i, subj) == \A a \in DOMAIN i : a \in DOMAIN subj /\ subj[a] = i[a]
 
-BadKinds == {"badDupAttr", "badMissingC", "badGarbage", "badEmptyValue", "badEmptyMandatory"}
+BadKinds == {"badDupAttr", "badMissingC", "badGarbage", "badEmptyValue", "badEmptyMandatory", "badTail"}   \* "badTail": a well-formed, matching beginning followed by a malformed rest
 IdentityFact(d) ==
   IF \E k \in 1..Len(d.ids) : d.ids[k].kind = "wildcard" THEN "match"
   ELSE IF \E k \in 1..Len(d.ids) : d.ids[k].kind \in BadKinds THEN "noMatch"   \* an identity that cannot be interpreted: fail closed
